@@ -303,9 +303,10 @@ func ruleScopeGate(r *core.Reporter) {
 				if ii.Atom.V == ssa.Value(ms) {
 					start := ir.Pt{B: ii.If.Block().Succs[ii.EdgeWhen(true)], I: 0}
 					trueOK = true
-					for in := range ir.Reach([]ir.Pt{start}, ir.Opts{Stop: func(x ssa.Instruction) bool { return x == ssa.Instruction(ii.If) }}).Reached {
+					rres := ir.Reach([]ir.Pt{start}, ir.Opts{Stop: func(x ssa.Instruction) bool { return x == ssa.Instruction(ii.If) }})
+					for in := range rres.Reached {
 						if ret, isRet := in.(*ssa.Return); isRet {
-							if c, isC := ret.Results[0].(*ssa.Const); !isC || c.Value == nil || c.Value.ExactString() != "true" {
+							if vals, okc := rres.BoolReturn(ret); !okc || !allTrue(vals) {
 								trueOK = false
 							}
 						}
@@ -444,6 +445,72 @@ func ruleRequestAfterGate(r *core.Reporter) {
 				}
 			}
 		}
+	}
+	isFreshCmp := func(v ssa.Value) (eqFresh bool, ok bool) {
+		a, pol := ir.Decompose(v)
+		if a.V != nil || a.Op != token.EQL {
+			return false, false
+		}
+		x, y := a.X, a.Y
+		if _, isC := x.(*ssa.Const); isC {
+			x, y = y, x
+		}
+		c, isCall := x.(*ssa.Call)
+		val, okc := ir.ConstInt(y)
+		if !isCall || !okc || !ir.IsCallTo(c, "(*"+pkgModels+".Item).GetStatus") || val != states["ItemFresh"] {
+			return false, false
+		}
+		return pol, true
+	}
+	if !filterOK {
+		// forward filter: on the == Fresh edge the item is appended to the list that is used afterwards
+		for _, ii := range ir.Ifs(fn) {
+			if eq, ok := isFreshCmp(ii.If.Cond); ok {
+				start := ir.Pt{B: ii.If.Block().Succs[ii.EdgeWhen(eq == ii.Pol)], I: 0}
+				_ = start
+				keepEdge := 0
+				if !eq {
+					keepEdge = 1
+				}
+				st := ir.Pt{B: ii.If.Block().Succs[keepEdge], I: 0}
+				rs := ir.Reach([]ir.Pt{st}, ir.Opts{Stop: func(in ssa.Instruction) bool { return in == ssa.Instruction(ii.If) }})
+				for in := range rs.Reached {
+					if cc, isC := in.(*ssa.Call); isC && ir.CallName(cc.Common()) == "builtin.append" && strings.HasSuffix(cc.Type().String(), "models.Item") {
+						if ir.Reach([]ir.Pt{ir.After(cc)}, ir.Opts{}).Reached[sr] && !ir.Reach([]ir.Pt{ir.After(sr)}, ir.Opts{}).Reached[cc] && loopCoversAll(fn, cc) {
+							filterOK = true
+						}
+					}
+				}
+			}
+		}
+	}
+	if !filterOK {
+		// library filter: slices.DeleteFunc(list, func(it) bool { return it.GetStatus() != Fresh }) before the requests
+		allInstrs(fn, func(in ssa.Instruction) {
+			c, ok := in.(*ssa.Call)
+			if !ok || !strings.HasPrefix(ir.CallName(c.Common()), "slices.DeleteFunc") || len(c.Call.Args) != 2 {
+				return
+			}
+			var pred *ssa.Function
+			switch x := ir.Strip(c.Call.Args[1]).(type) {
+			case *ssa.Function:
+				pred = x
+			case *ssa.MakeClosure:
+				pred, _ = x.Fn.(*ssa.Function)
+			}
+			if pred == nil {
+				return
+			}
+			okPred := len(ir.Returns(pred)) > 0
+			for _, ret := range ir.Returns(pred) {
+				if eq, okc := isFreshCmp(ir.RetVal(ret, 0)); !okc || eq {
+					okPred = false
+				}
+			}
+			if okPred && ir.Reach([]ir.Pt{ir.After(c)}, ir.Opts{}).Reached[sr] && !ir.Reach([]ir.Pt{ir.After(sr)}, ir.Opts{}).Reached[c] {
+				filterOK = true
+			}
+		})
 	}
 	if filterOK {
 		r.Held("SetRequest/fresh-only", 1, "non-Fresh items (seen, failed, completed) are removed from the list before requests are built")
@@ -1061,6 +1128,31 @@ func ruleDefaultExcludes(r *core.Reporter) {
 				for _, e := range x.Edges {
 					walk(e, d+1)
 				}
+			case *ssa.UnOp:
+				// a package-level list that is assigned once, in the package initialiser
+				if g, isG := x.X.(*ssa.Global); isG && x.Op == token.MUL && g.Pkg != nil {
+					var initVal ssa.Value
+					stores := 0
+					for _, m := range g.Pkg.Members {
+						f, isF := m.(*ssa.Function)
+						if !isF {
+							continue
+						}
+						for _, ff := range withAnon(f) {
+							allInstrs(ff, func(gi ssa.Instruction) {
+								if gs, isSt := gi.(*ssa.Store); isSt && gs.Addr == ssa.Value(g) {
+									stores++
+									if f.Name() == "init" {
+										initVal = gs.Val
+									}
+								}
+							})
+						}
+					}
+					if stores == 1 && initVal != nil {
+						walk(initVal, d+1)
+					}
+				}
 			}
 		}
 		walk(st.Val, 0)
@@ -1186,4 +1278,13 @@ func ruleExclusionFiles(r *core.Reporter) {
 func isConfigFieldOrGlobal(v ssa.Value, field string) bool {
 	pth := ir.Path(v)
 	return strings.HasSuffix(pth, "."+field)
+}
+
+func allTrue(vs []bool) bool {
+	for _, v := range vs {
+		if !v {
+			return false
+		}
+	}
+	return len(vs) > 0
 }
